@@ -5814,10 +5814,10 @@ class Path(Shape, MutableSequence):
         else:
             s = args[0]
             if isinstance(s, Subpath):
-                self._segments.extend(s.segments(transformed=False))
+                self._segments.extend(map(copy, s.segments(transformed=False)))
                 Shape.__init__(self, s._path)
             elif isinstance(s, Shape):
-                self._segments.extend(s.segments(transformed=False))
+                self._segments.extend(map(copy, s.segments(transformed=False)))
             elif isinstance(s, str):
                 self._segments = list()
                 self.parse(s)
